@@ -4,7 +4,7 @@ from props.common import *  # noqa: F401,F403
 
 FUNCTIONS = SEARCH_FUNCS + DESIGN_FUNCS
 NATIVE_FUNCTIONS = SEARCH_NATIVES
-LEVEL = "proof"
+LEVEL = "other"
 
 
 def lemmas():
@@ -25,7 +25,7 @@ EXPLANATION = ("GHE.size ensures min_height <= H <= max_height (solve_root: bren
                "exactly when continue_if_design_unmet is off and otherwise return the smallest candidate at min height / the largest allowed at max height. "
                "Every subscript, [-1], .index, division, max() and None-attribute site of the verified functions carries a safety obligation, so no exception other than the "
                "declared ValueError escapes them (under non-degenerate excess: never exactly zero).")
-LEVEL_TEXT = ("Deductive proof for all candidate lists, caps >= 2, height windows and both policy settings: returned height within [min,max]; borehole count below the cap; "
+LEVEL_TEXT = ("[level other because RowWiseModifiedBisectionSearch.search, one of the search classes the statement quantifies over, is covered only by a bounded oracle-stubbed run-time contract] Deductive proof for all candidate lists, caps >= 2, height windows and both policy settings: returned height within [min,max]; borehole count below the cap; "
               "ValueError exactly in the unmet-and-not-continued case, else smallest@min / largest-allowed@max; no implicit exception (index, key, division, empty max, None) "
               "is reachable in the verified search, sizing and constructor code. RowWise search is bounded only.")
 LEVEL_NOTE = "Trusted: pyvc, z3/cvc5, brentq model (A-BRENT), A-NODE, A-HMONO, A-LIP, A-DET, A-REAL; RowWise search only bounded."
